@@ -83,6 +83,8 @@ type Op struct {
 	Limit  int        `json:"limit,omitempty"`  // range: rows that get the writes (0 = all)
 	Yield  bool       `json:"yield,omitempty"`  // harness yield between column reads inside the callback
 	Index  *IndexSpec `json:"index,omitempty"`  // mkindex: CreateIndex on the primary beside the other threads
+	Sort   *SortSpec  `json:"sort,omitempty"`   // mksort: CreateSortIndex beside the other threads
+	Name   string     `json:"name,omitempty"`   // mktrigger / droptrigger
 }
 
 // Target names a row symbolically so that cases stay meaningful when steps are removed.
